@@ -117,17 +117,6 @@ func verifC20VoleBV7()   { verifC20VoleBV(7, 3, 2) }
 func verifC20VoleBV13()  { verifC20VoleBV(13, 4, 2) }
 func verifC20VoleBV251() { verifC20VoleBV(251, 8, 1) }
 
-// verifC20Bytes32: bytes32 is the fixed-width big-endian encoding: it
-// round-trips every value below 2^256 through SetBytes.
-func verifC20Bytes32() {
-	v := verifElem("v", 256)
-	b := bytes32(v)
-	zzverif.Assert(len(b) == 32, "32 bytes")
-	w := new(big.Int).SetBytes(b)
-	zzverif.Assert(w.Cmp(v) == 0, "SetBytes(bytes32(v)) = v")
-	zzverif.Reach("end")
-}
-
 // verifC20VoleLong: long vectors (across the 512-row extension chunk
 // boundaries) with the P-256 prime and CONCRETE pseudo-random field elements
 // (including 0, 1, p-1); the masks r_i stay symbolic (IKNP PRG and AES
